@@ -23,7 +23,7 @@ def add_stats(ctx, stats, label):
         for k, v in st.get("counts", {}).items():
             tot[k] = tot.get(k, 0) + v
     for st in stats[:1]:
-        for s in st.get("samples", [])[:1]:
+        for s in (st.get("samples") or [])[:1]:
             ctx.cov["samples"].append({"program": s})
 
 
@@ -392,4 +392,152 @@ def c13(ctx):
                       "Database level: sequential session chains on all file systems with clean and unclean ends and competing Opens (locked error, directory listing unchanged), validated against Layer A")
 
 
-CHECKS = {"C13": c13, "C07": c07, "C10": c10, "C02": c02, "C11": c11, "C12": c12, "C05": c05, "C01": c01, "C03": c03, "C04": c04, "C06": c06, "C09": c09}
+def framing_jobs(ctx, label, nshards, n, extra=None):
+    jobs, outs = [], []
+    for i in range(nshards):
+        out = ctx.path("rec-%s-%d.ndjson" % (label, i))
+        outs.append(out)
+        jobs.append(["framing", "-n", str(n), "-seed", str(ctx.seed * 7919 + i * 104729 + 1), "-out", out] + (extra or []))
+    add_stats(ctx, ctx.vrun_parallel(jobs), label)
+    return outs
+
+
+def c08(ctx):
+    q = ctx.quick()
+    ctx.model_check("Framing.tla", "cfg/framing.cfg", workers=4, timeout=600)
+    outs = framing_jobs(ctx, "tails", 8, 150 if q else 4000)
+    rejs = ctx.validate(outs, module="TraceFraming.tla", cfg="TraceFraming.cfg")
+    ctx.sample_from(outs[0], 2, maxlen=4000)
+    ctx.report_rejections(rejs, describe_generic)
+    h = ctx.cov["harness"]["tails"]
+    ctx.cov["evaluations"] = h.get("cases", 0)
+    ctx.cov["distinct_nontrivial"] = h.get("cases", 0)
+    ctx.assumptions += ["the records a database holds before the damage are read by an independent decoder written from docs/design.md (harness/h/decoder.go), never by pogreb's own iterator",
+                        "single-bit flips are confined to key, value and checksum bytes when labelled badcrc (CRC-32 detects every single-bit error); damaged length fields are labelled by construction (claim vs bytes present)"]
+    return ctx.finish("exploration", "databases of 3-16 records over 1-8 segments (1-8 KB) written by the real code, closed, one segment (newest or older) damaged: cut inside a record, one flipped bit in key/value/checksum, 1-4096 zero bytes, 1-5 garbage bytes, "
+                      "a checksum-damaged record followed by a well-formed one, a header claiming more than is present; lock file recreated; recovering Open by the real code; "
+                      "TLC (TraceFraming.tla) computes from the abstract description what must be replayed (valid prefix of every segment, in sequence order), where each file must be cut, and compares contents, Count, Has, Items and file sizes. "
+                      "Framing.tla checks the iterator transcription over all tails of <= 3 items. distinct_nontrivial = damaged databases")
+
+
+def c19(ctx):
+    q = ctx.quick()
+    ctx.model_check("Framing.tla", "cfg/framing.cfg", workers=4, timeout=600)
+    ctx.model_check("Framing.tla", "cfg/framing_pinned_D7.cfg", workers=4, expect_violation="AllocBounded", timeout=600)
+    outs = framing_jobs(ctx, "claims", 8, 60 if q else 1500, ["-claims"])
+    rejs = ctx.validate(outs, module="TraceFraming.tla", cfg="TraceFraming.cfg")
+    ctx.sample_from(outs[0], 2, maxlen=4000)
+    ctx.report_rejections(rejs, describe_generic)
+    h = ctx.cov["harness"]["claims"]
+    ctx.cov["evaluations"] = h.get("cases", 0)
+    ctx.cov["distinct_nontrivial"] = h.get("cases", 0)
+    ctx.assumptions += ["allocation = runtime.MemStats.TotalAlloc across the recovering Open plus the harness read-back, in-process; bound 32 x bytes on disk + 1 MiB (measured on the repaired tree: 0.29-0.43 MB for these databases)"]
+    return ctx.finish("exploration", "garbage 6-byte headers after the last valid record of a segment: key size in {0,1,255,4096,65535} x value size in {0,1,511,64Ki,1Mi,64Mi,2^31-1} x both record types x {0,3,100,5000} trailing bytes, "
+                      "on small multi-segment databases; the recovering Open of the real code is measured (bytes allocated, wall time) and TLC (TraceFraming.tla) checks the allocation bound together with the C08 outcome (tail discarded, contents = valid prefixes)")
+
+
+def c15(ctx):
+    q = ctx.quick()
+    wal_models(ctx, "power", ["D6b"])
+    outs = seq_jobs(ctx, "after-compact", 8, 6 if q else 60, 120, 20, ALLFS, ["-strict", "-aftercompact"])
+    jobs, outs2 = [], []
+    for i, fsn in enumerate(("os", "osmmap", "os", "osmmap")):
+        out = ctx.path("rec-steady-%d.ndjson" % i)
+        outs2.append(out)
+        jobs.append(["steady", "-fs", fsn, "-n", "1" if q else "4", "-ops", "40" if q else "160", "-keys", str(40 + 30 * i), "-dir", ctx.path("tmp"),
+                     "-seed", str(ctx.seed * 7919 + i), "-out", out])
+    add_stats(ctx, ctx.vrun_parallel(jobs), "steady")
+    rejs = ctx.validate(outs + outs2)
+    ctx.sample_from(outs[0], 1)
+    ctx.report_rejections(rejs, describe_generic)
+    h = ctx.cov["harness"]
+    ctx.cov["evaluations"] = h["after-compact"].get("ops", 0) + h["steady"].get("ops", 0)
+    ctx.cov["distinct_nontrivial"] = h["after-compact"].get("programs", 0) + h["steady"].get("runs", 0)
+    return ctx.finish("model_checking", "strict recordings (an error of Sync/Compact/Backup/Close is a violation): histories with Sync, Put, Delete, Backup (and often a clean restart) after every Compact, and histories that delete everything so that compaction removes EVERY segment, "
+                      "on all four file systems; after every successful Compact the directory listing is recorded: TLC checks that every vanished segment and its side file are gone, their number equals the reported count and every remaining file is lock/db meta/index or a live segment with its side file. "
+                      "Steady state: 40-160 rounds of overwrite/delete + Compact with a clean restart every 5th round on fs.OS and fs.OSMMap; file count, directory bytes, open descriptors and mappings of the database files per round, bounded by the live data (TRound)")
+
+
+def c14(ctx):
+    q = ctx.quick()
+    outs = seq_jobs(ctx, "held-slices", 12, 3 if q else 30, 220, 40, ("osmmap", "osmmap", "os", "mem", "osmmap", "crashfs"), ["-hold", "-inject", "-scans"])
+    rejs = ctx.validate(outs)
+    ctx.sample_from(outs[0], 1)
+    ctx.report_rejections(rejs, describe_generic)
+    h = ctx.cov["harness"]["held-slices"]
+    ctx.cov["evaluations"] = ctx.cov["events"]
+    ctx.cov["distinct_nontrivial"] = h.get("programs", 0)
+    ctx.assumptions += ["memory aliasing is outside TLA+: the specification contributes the histories after each read and the oracle Observe(id) = Hold(id); a slice into unmapped memory is turned into a fault event by SetPanicOnFault"]
+    return ctx.finish("exploration", "every byte slice returned by Get, GetAppend and ItemIterator.Next in C01-style histories (overwrites, deletes, compaction removing the segment read from, segment growth and remapping, clean restarts, Close) "
+                      "is kept with its digest and re-read every 7 calls, after every Compact and after Close, mostly on the memory-mapped file system; key/value buffers passed to Put/Delete/Get are overwritten with 0xA5 as soon as the call returns; "
+                      "TLC validates Hold/Observe (digests never change), the absence of fault events, and that all later reads still return the original data")
+
+
+def c16(ctx):
+    q = ctx.quick()
+    jobs, outs = [], []
+    for i, fsn in enumerate(ALLFS + ("osmmap", "os")):
+        out = ctx.path("rec-sizes-seq-%d.ndjson" % i)
+        outs.append(out)
+        jobs.append(["sizes", "-mode", "seq", "-fs", fsn, "-n", "3" if q else "30", "-dir", ctx.path("tmp"), "-seed", str(ctx.seed * 7919 + i), "-out", out])
+    for i in range(6):
+        out = ctx.path("rec-sizes-crash-%d.ndjson" % i)
+        outs.append(out)
+        jobs.append(["sizes", "-mode", "crash", "-fs", "crashfs", "-n", "2" if q else "20", "-seed", str(ctx.seed * 104729 + i), "-out", out])
+    if not q:
+        out = ctx.path("rec-sizes-huge.ndjson")
+        outs.append(out)
+        jobs.append(["sizes", "-mode", "seq", "-fs", "os", "-huge", "-n", "1", "-dir", ctx.path("tmp"), "-seed", str(ctx.seed), "-out", out])
+    add_stats(ctx, ctx.vrun_parallel(jobs), "sizes")
+    rejs = ctx.validate(outs)
+    ctx.sample_from(outs[0], 1)
+    ctx.report_rejections(rejs, describe_generic)
+    h = ctx.cov["harness"]["sizes"]
+    ctx.cov["evaluations"] = h.get("ops", 0)
+    ctx.cov["distinct_nontrivial"] = h.get("programs", 0)
+    ctx.assumptions += ["values longer than 48 bytes are compared by length + 64-bit digest"]
+    return ctx.finish("exploration", "programs over key lengths {0,1,2,255,4096,65535} and value lengths {0,1,2,100,494-496,505,511-513,1024, segment capacity -30/-16/0/+1, 2x capacity} with 2 KB - 1 MB segments; "
+                      "over-long keys (65536, 65537, 65536+len of a stored key, 131072) in Put (must fail, Count and read-back unchanged), Get/Has/GetAppend/Delete (absent); empty value vs missing key; clean restarts, compaction, crash images and continued epochs on crashfs; "
+                      "thorough: the 512 MiB value limit and limit+1 on fs.OS. Validated by TLC against Layer A (TooLarge: error and no effect; byte-exact values)")
+
+
+def c17(ctx):
+    q = ctx.quick()
+    jobs, outs = [], []
+    for i in range(8):
+        out = ctx.path("rec-diff-%d.ndjson" % i)
+        outs.append(out)
+        jobs.append(["diff", "-n", "3" if q else "40", "-ops", "150", "-keys", "40", "-dir", ctx.path("tmp"), "-seed", str(ctx.seed * 7919 + i * 31), "-out", out])
+    add_stats(ctx, ctx.vrun_parallel(jobs), "diff")
+    rejs = ctx.validate(outs)
+    ctx.sample_from(outs[0], 1)
+    ctx.report_rejections(rejs, describe_generic)
+    h = ctx.cov["harness"]["diff"]
+    ctx.cov["evaluations"] = h.get("ops", 0)
+    ctx.cov["distinct_nontrivial"] = h.get("programs", 0)
+    return ctx.finish("exploration", "the same random program (colliding keys, values up to 2.2 KB, rollover, compaction, clean restarts, simulated unclean shutdowns with 0-700 garbage bytes appended to the newest segment and recovery) with a pinned hash seed "
+                      "on fs.Mem, fs.OS, fs.OSMMap and crashfs; each of the four recordings is validated by TLC against Layer A, and an fscmp event carries the digest of all responses and of the names and bytes of all segment files per file system, which TLC requires to be equal")
+
+
+def c18(ctx):
+    q = ctx.quick()
+    out = ctx.path("rec-golden.ndjson")
+    st = ctx.vrun(["golden-check", "-golden", os.path.join(VERIF, "golden"), "-dir", ctx.path("tmp"), "-seed", str(ctx.seed), "-out", out])
+    add_stats(ctx, [st], "golden")
+    # every segment the current code writes is read by the independent decoder (decoded events)
+    outs = seq_jobs(ctx, "decode", 8, 3 if q else 30, 200, 50, ALLFS)
+    rejs = ctx.validate([out] + outs)
+    ctx.sample_from(out, 1)
+    ctx.report_rejections(rejs, describe_generic)
+    h = ctx.cov["harness"]
+    ctx.cov["evaluations"] = h["golden"].get("opened", 0) + h["decode"].get("programs", 0)
+    ctx.cov["distinct_nontrivial"] = h["golden"].get("opened", 0) + h["decode"].get("programs", 0)
+    ctx.assumptions += ["the golden corpus (/verif/golden, 7 directories) was written once by a harness built against the pinned commit plus the verif hooks; its expected contents are what the pinned version itself read back",
+                        "harness/h/decoder.go is written from docs/design.md and shares no code with pogreb"]
+    return ctx.finish("exploration", "golden directories written by the pinned version (index growth over several levels, overflow chains from colliding hashes, rollover + compaction + restarts, unclean shutdown, unclean with a torn tail, empty) "
+                      "are copied and opened by the current code on fs.OS and fs.OSMMap: identical contents, recovery exactly for the unclean ones, then 40 more operations, compaction, restart; "
+                      "and the segment files of every sequential recording are read by an independent decoder of the documented format (header signature + version 2, record layout, CRC-32, sequence-numbered names) "
+                      "and replayed in sequence order: TLC requires the result to equal the Layer-A contents (TDecoded)")
+
+
+CHECKS = {"C14": c14, "C16": c16, "C17": c17, "C18": c18, "C15": c15, "C08": c08, "C19": c19, "C13": c13, "C07": c07, "C10": c10, "C02": c02, "C11": c11, "C12": c12, "C05": c05, "C01": c01, "C03": c03, "C04": c04, "C06": c06, "C09": c09}
